@@ -102,6 +102,14 @@ class ProgGen:
             {"cls": "DimensionalityError", "args": ["meter", "second", "[length]", "[time]", " extra"]},
             {"cls": "OffsetUnitCalculusError", "args": ["degC"]},
             {"cls": "OffsetUnitCalculusError", "args": ["degC", "degF"]},
+            {"cls": "OffsetUnitCalculusError", "args": ["degC", ""]},
+            {"cls": "LogarithmicUnitCalculusError", "args": ["dB", ""]},
+            {"cls": "LogarithmicUnitCalculusError", "args": ["dB"]},
+            {"cls": "DimensionalityError", "args": ["meter", "second", "", "", ""]},
+            {"cls": "DimensionalityError", "args": ["", "second", None, None, ""]},
+            {"cls": "UndefinedUnitError", "args": [[]]},
+            {"cls": "DefinitionSyntaxError", "args": [""]},
+            {"raised": "offset_div"}, {"raised": "offset_mul"}, {"raised": "dim"}, {"raised": "undefined"}, {"raised": "log_add"},
             {"cls": "LogarithmicUnitCalculusError", "args": ["dB", "dBm"]},
             {"cls": "UnitStrippedWarning", "args": ["stripped"]},
             {"cls": "UndefinedBehavior", "args": ["undefined"]},
@@ -339,9 +347,23 @@ class _Run:
                 obj = ureg.parse_units(s["u"])._units
             else:
                 e = s["exc"]
-                cls = getattr(pint.errors, e["cls"])
-                args = [{"<type:int>": int, "<type:float>": float}.get(a, a) if isinstance(a, str) else a for a in e["args"]]
-                obj = cls(*args)
+                if "raised" in e:
+                    # an exception object as pint itself raises it
+                    try:
+                        {"offset_div": lambda: ureg.Quantity(1, "degC") / 2,
+                         "offset_mul": lambda: ureg.Quantity(1, "degC") * ureg.Quantity(2, "meter"),
+                         "dim": lambda: ureg.Quantity(1, "meter").to("second"),
+                         "undefined": lambda: ureg.parse_units("nosuchunit"),
+                         "log_add": lambda: ureg.Quantity(1, "dB") * ureg.Quantity(2, "meter")}[e["raised"]]()
+                        return "failed"
+                    except Exception as raised:
+                        if not isinstance(raised, pint.errors.PintError):
+                            return "failed"
+                        obj = raised.with_traceback(None)
+                else:
+                    cls = getattr(pint.errors, e["cls"])
+                    args = [{"<type:int>": int, "<type:float>": float}.get(a, a) if isinstance(a, str) else a for a in e["args"]]
+                    obj = cls(*args)
         except Exception as ex:
             self.log.ev(s["id"], "make-failed", exc_name(ex))
             return "failed"
